@@ -723,11 +723,13 @@ pub fn run(ctx: &Ctx) -> Outcome {
         crate::exitprobe::check("page", MON, &mut at_exit);
         gigantic_pages(&mut ctx.rng("gigantic", 0), &mut at_exit);
         pages_over_other_pages_bytes(&mut ctx.rng("aliased", 0), &mut at_exit);
+        crate::c07::uniform_pages_with_every_id(&mut at_exit);
         crate::exitprobe::check_migration("page", MON, &mut at_exit);
         report.merge(at_exit);
     }
     let floors = vec![
         floor("every page asked for could be built (otherwise the bounds rules were not observed on those sizes)", report.get("pages_that_could_not_be_built") == 0, report.get("pages_that_could_not_be_built")),
+        floor("pages over bytes whose pixel area is all one value, with every id 0..=255 (3 sizes, borrowed and owned), filled and cleared in both orders", report.get("uniform_pages_with_every_id") == 3 * 256 * 4, report.get("uniform_pages_with_every_id")),
         floor("two half-gigabyte pages filled and cleared with set_all_pixels, every probed pixel read after each", report.get("gigantic_pages_filled_and_cleared") == 2, report.get("gigantic_pages_filled_and_cleared")),
         floor("pages whose dot count passes 2^32 (65537x65536, 65536x65537, (2^28+1)x16, ...), owned and borrowed, probed at the corners, past the 2^32-dot mark and at random", report.get("gigantic_pages_probed") == 24, report.get("gigantic_pages_probed")),
         floor("out-of-bounds accesses made from a destructor while another panic unwinds (every size of the box)", report.get("oob_accesses_made_while_a_panic_unwinds") > 10_000 && report.get("oob_while_unwinding_not_reached") == 0, report.get("oob_accesses_made_while_a_panic_unwinds")),
